@@ -167,6 +167,35 @@ check(
     "DESIGN.md 2.7, 5 (C12)",
 )
 
+check(
+    "C08",
+    "Rewrites.tla: the six rewrites as TLA+ functions at any site; TLC checks RewriteNeutral on PestSem (every site x kind x input on sampled families); the same functions applied by TLC to the bundled grammars' exported ASTs, original vs rewritten replayed on corpora in four modes",
+    "TLC establishes that each rewrite at every site preserves the reference outcome (trees and success/failure) on sampled grammars of the core, trivia, modifier, stack and tag families, then enumerates the sites of the eleven "
+    "bundled grammars' exported ASTs and applies seeded (site, kind) singles and pairs with the same functions; the harness prints each rewritten grammar and requires the real library to return the same tree (tags included) or to "
+    "fail, as for the original, on corpus files, suite inputs and mutations, in four modes.",
+    REPLAY_NOTE + " NEVER is the literal U+10FFFD. Failure positions are not compared.",
+    "DESIGN.md 2.5, 5 (C08)",
+)
+check(
+    "C15",
+    "Isolation.tla enumerates creation/generation/parse histories, Reentrancy.tla models and enumerates thread schedules; histories replayed in pristine forked processes, schedules by a deterministic line-level scheduler; every logged (key, result) validated by TLC as functional in the key (IsolationTrace.tla)",
+    "Every history of Create(g, opt)/Generate/Parse(ok|fail) up to length 3 (quick) / 4 (thorough) over three grammars sharing built-ins, lazy caches and a fused SKIP rule x three optimizer settings is replayed in a pristine forked "
+    "process, followed by every case on every live object; every schedule with at most two preemptions on a step lattice (TLC-enumerated from Reentrancy.tla, which also checks the design property) is replayed on shared interpreted "
+    "and generated parsers by a settrace-based scheduler, plus concurrent parser creation and uncontrolled stress; TLC validates that the complete log of (grammar, optimizer, interpreted/generated, case) -> digest(tree | failure "
+    "position + expected/unexpected sets + rule stack + message) is a function.",
+    "Trusted: TLC, CPython's fork and settrace. Line-level interleavings only (not inside a single bytecode line or the regex C extension).",
+    "DESIGN.md 2.10, 5 (C15)",
+)
+check(
+    "C17",
+    "JsonDoc.tla pushdown generator (all document shapes to a bound) and CalcExpr.tla (all operator streams over the documented table with their denoted trees, uniqueness TLC-checked); documents vs json.loads, expressions vs the value of the denoted tree, three calculators",
+    "TLC enumerates every RFC 8259 document shape up to 9 (quick) / 11 (thorough) tokens with lexeme lists covering every number production and string escape, and every well-formed calculator operator stream up to 7 / 9 "
+    "tokens with the tree it denotes under the documented precedence table; each instantiated document must be accepted by both bundled JSON grammars in four modes with a tree that mirrors json.loads and the generator's skeleton, "
+    "every proper prefix must be rejected, and all three bundled calculators (imported from a scratch copy whose parsers are regenerated from the current tree) must return the value of the denoted tree or raise where it is undefined.",
+    "Trusted: TLC, json.loads (the oracle the statement names), CPython arithmetic. Generation and denotation by TLC; value comparison by the harness.",
+    "DESIGN.md 2.9, 5 (C17)",
+)
+
 NOT_YET = {
 }
 
